@@ -22,7 +22,10 @@ EXPLANATION = (
     "writes is a head the domain parser dispatches on. C08.order: signature items reach the text unsorted. C08.balance: the literal "
     "parts of every writer template contain as many '(' as ')'. C08.options: a printer that takes print options passes them on at "
     "every recursive call (otherwise nested conditions are printed simplified at 2 digits although the exporter asked for "
-    "unsimplified text)."
+    "unsimplified text). C08.operands: operands of each of the three kinds are handled, reach the returned text, and reach it through "
+    "the operand's own text (untyped_representation / str / print / to_pddl) or through all of its identifying parts. The printers are "
+    "analysed after flattening plus the local normalisations of _c08_util (generators at eager consumers, local tables, records and "
+    "constant-key dicts split into locals, str.format / % templates written as f-strings), so the way the text is assembled is immaterial."
 )
 UNDECIDED = "equality of vocabulary and behaviour after re-parsing; numeric precision; a second export/parse round"
 
@@ -392,7 +395,9 @@ def rule_options(repo: Repo) -> RuleResult:
     # printers without option parameters that print a nested condition: the options cannot reach it
     for spec, attr, role in (("ConditionalEffect.__str__", "antecedents", "call:str(self.antecedents)"),
                              ("UniversalPrecondition.__str__", None, "call:super()._print_self()")):
-        g = repo.func(spec)
+        # the text of the antecedents may be produced by a helper / a template (analysed in place); the bare super() call is looked for
+        # in the printer as written (analysed in place it would no longer be a call)
+        g = U.fn(repo, spec) if attr else repo.func(spec)
         pg = L.prov(repo, g)
         for c in L.calls_in(g.node):
             nested = False
@@ -569,4 +574,4 @@ def rules(repo: Repo, tier: str) -> List[RuleResult]:
     return [rule_fields(repo, "C08.fields", FIELD_TABLE), rule_typedparams(repo), rule_nocollapse(repo), rule_operand_kinds(repo), rule_polarity(repo), rule_keywords(repo),
             rule_balance(repo, "C08.balance", BALANCE_SITES), rule_order(repo), rule_options(repo),
             # numeric constants of preconditions / effects survive the export up to the print precision (the tree printer is part of the writer)
-            c13.rule_round(repo, "C08.round", ["NumericalExpressionTree._convert_to_pddl"])]
+            c13.rule_round(repo, "C08.round", ["NumericalExpressionTree.to_pddl"])]
